@@ -2,6 +2,7 @@
 package c01
 
 import (
+	"encoding/base64"
 	"bytes"
 	"encoding/json"
 	"errors"
@@ -287,6 +288,9 @@ func (x *ctx) apply(c caseT) opsenv.ApplyFunc {
 				return append(d, []byte(m.Path+" "+m.Version+" h1:EVILEVILEVILEVILEVILEVILEVILEVILEVILEVILEVI=\n")...), nil
 			case "extra-unknown-sig":
 				return append(d, []byte("— other.example/log AAAAAAECAwQFBgcICQ==\n")...), nil
+			case "extra-long-unknown-sig":
+				// a cosignature of another scheme: 4-byte key id + 256 signature bytes
+				return append(d, []byte("— witness.example/rsa "+base64.StdEncoding.EncodeToString(append([]byte{1, 2, 3, 4}, bytes.Repeat([]byte{0x5a}, 256)...))+"\n")...), nil
 			case "attacker-head":
 				return rebuild(id, text, A.Head(treeSize(), "attacker", "")), nil
 			case "attacker-head-twice":
@@ -318,6 +322,11 @@ func (x *ctx) apply(c caseT) opsenv.ApplyFunc {
 					return d, nil
 				}
 				return A.Head(int(t.N), "attacker", ""), nil
+			case "long-cosignature":
+				if len(d) == 0 {
+					return d, nil
+				}
+				return append(append([]byte(nil), d...), []byte("— witness.example/rsa "+base64.StdEncoding.EncodeToString(append([]byte{1, 2, 3, 4}, bytes.Repeat([]byte{0x5a}, 256)...))+"\n")...), nil
 			case "forged-attacker-head":
 				t, err := clientx.OpenHead(d)
 				if err != nil || t.N == 0 {
@@ -403,7 +412,7 @@ func menuX(t opsenv.Touch, reduced, everyByte bool) []opsenv.Fault {
 				add("flip", len(d)*frac/100)
 			}
 		}
-		for _, k := range []string{"id+1", "swap-record", "swap-text", "forged-text", "extra-record-line", "extra-unknown-sig", "attacker-head", "attacker-head-twice", "fw-lookup-attacker-head-twice", "realkey-extra-lines", "error", "empty", "garbage", "trunc-half"} {
+		for _, k := range []string{"id+1", "swap-record", "swap-text", "forged-text", "extra-record-line", "extra-unknown-sig", "extra-long-unknown-sig", "attacker-head", "attacker-head-twice", "fw-lookup-attacker-head-twice", "realkey-extra-lines", "error", "empty", "garbage", "trunc-half"} {
 			add(k, 0)
 		}
 		add("stale", 0)
@@ -426,7 +435,7 @@ func menuX(t opsenv.Touch, reduced, everyByte bool) []opsenv.Fault {
 				add("flip", len(d)*frac/100)
 			}
 		}
-		for _, k := range []string{"trunc-half", "garbage", "attacker-head", "forged-attacker-head", "forged-attacker-head-twice", "error", "trunc-byte"} {
+		for _, k := range []string{"trunc-half", "garbage", "attacker-head", "forged-attacker-head", "forged-attacker-head-twice", "long-cosignature", "error", "trunc-byte"} {
 			add(k, 0)
 		}
 	}
@@ -570,6 +579,19 @@ func (x *ctx) exec(c caseT) outcome {
 	res := clientx.Run(env, c.H, steps)
 	o := outcome{env: env, results: res}
 	honest := env.Changed == 0
+	if !honest && c.Macro == "" && len(c.Plan) > 0 {
+		// deviations that leave the run honest: the same head carrying further signatures (of keys the client
+		// does not know, of any size) next to the real one
+		benign := true
+		for _, pe := range c.Plan {
+			switch pe.Fault.Kind {
+			case "extra-unknown-sig", "extra-long-unknown-sig", "both-signed-head", "long-cosignature":
+			default:
+				benign = false
+			}
+		}
+		honest = benign
+	}
 	classes := []string{}
 	for i, r := range res {
 		if r.Panic != "" {
